@@ -25,6 +25,12 @@ from harness.props import c05
 warnings.simplefilter('ignore')
 
 TOLS = [0, 0, 0, F(1, 8), F(1, 2), 1, F(1, 1024), 2]
+WIDE = 2 ** 21
+# sample values around the integer dtype boundaries `as_samples` switches at (int8 / int16 / int32) and around
+# sqrt(2^15), sqrt(2^31): products of two of them overflow the sample's own integer type but stay far below 2^53
+BIG = sorted({s * (2 ** k + d) for k in (3, 6, 7, 8, 10, 14, 15, 16, 17, 20) for d in (-1, 0, 1) for s in (1, -1)}
+             | {11, 12, 127, -128, 181, 182, 32767, -32768, 46340, 46341, -46341, 65535, 65536, 1000003, -1000003})
+INT_DTYPES = [np.int8, np.int16, np.int32, np.int64]
 
 
 def value(p, x):
@@ -60,10 +66,16 @@ def gen_cqm(ctx, r):
     """a CQM built through public calls; returns (cqm, ref, protocol lines, python source)"""
     cqm = CQM(); ref = c05.Ref(); lines = ['new']; src = []
     nv = r.choice([0, 1, 2, 2, 3, 3, 4])
+    wide = r.random() < .4
     labs = r.sample(list(c05.KIND), nv)
+    if wide:
+        # at least two INTEGER variables so that products of two large sample values occur
+        labs = list(dict.fromkeys(r.sample(['i', 'j', 2], r.choice([1, 2, 2, 3])) + labs))[:max(nv, 2)]
     for v in labs:
         vt = c05.KIND[v]
         lo, hi = c05.BOUNDS[vt]
+        if wide and vt == 'INTEGER':
+            lo, hi = -WIDE, WIDE
         kw = '' if vt in ('BINARY', 'SPIN') else f', lower_bound={lo!r}, upper_bound={hi!r}'
         code = f'cqm.add_variable({vt!r}, {v!r}{kw})'
         exec(code, dict(cqm=cqm)); src.append(code)
@@ -72,8 +84,14 @@ def gen_cqm(ctx, r):
         else:
             ref.add_variable(vt, v, lo, hi); lines.append(f'addvar {vt} {lab(v)} {rat(lo)} {rat(hi)}')
 
+    ints = [v for v in labs if c05.KIND[v] == 'INTEGER']
+
     def terms(const_only):
         ts = []
+        if wide and not const_only and ints and r.random() < .8:
+            # a squared term or a product of two wide INTEGER variables
+            u, v = r.choice(ints), r.choice(ints)
+            ts.append((u, v, r.choice([-2, -1, -.5, .25, .5, 1, 1.5, 2])))
         for _ in range(r.randint(0 if not const_only else 1, 4)):
             k = 0 if const_only or not labs else r.choice([0, 1, 1, 2, 2])
             if k == 0:
@@ -105,6 +123,8 @@ def gen_cqm(ctx, r):
         lines.append(f'cont {lab(label)} {sense} {rat(rhs)} {"-" if weight is None else rat(weight)} {c05.PEN[penalty]} {c05.terms_arg(ts)}')
         ctx.tick('constraint:' + ('const' if not ref.cons[label].p.order else 'vars') + (':soft-' + penalty if weight is not None else ':hard'))
     ctx.tick('objective:' + ('const' if not ref.obj.order else 'vars'))
+    if wide:
+        ctx.tick('wide INTEGER model')
     return cqm, ref, lines, src
 
 
@@ -115,6 +135,8 @@ def rand_value(r, info):
     if vt == 'SPIN':
         return r.choice([-1, 1])
     if vt == 'INTEGER':
+        if hi > 1000:
+            return r.choice(BIG) if r.random() < .85 else r.randint(-200, 200)
         return r.randint(int(lo), int(hi))
     return r.randint(int(lo * 4), int(hi * 4)) / 4
 
@@ -187,6 +209,29 @@ def check_one(ctx, r, out):
                 break
         if not ok:
             break
+        # the same sample as an explicit NumPy row of every integer dtype that holds it (the C++ loops are
+        # instantiated per sample dtype; products of two sample values must not be formed in that type)
+        if labs and all(float(a).is_integer() for a in row):
+            for dt in INT_DTYPES:
+                if not all(np.iinfo(dt).min <= a <= np.iinfo(dt).max for a in row):
+                    continue
+                arr1 = np.array([row], dtype=dt)
+                ctx.tick('row dtype ' + np.dtype(dt).name)
+                try:
+                    gd = {a: F(float(b)) for a, b in cqm.violations((arr1, labs)).items()}
+                    cfd = bool(cqm.check_feasible((arr1, labs), rtol=fr_, atol=fa))
+                except Exception as e:  # noqa
+                    fail('CQM.violations', 'raises', f'{type(e).__name__}: {e} for a {np.dtype(dt).name} row', f'cqm.violations((np.array([{row!r}], dtype=np.{np.dtype(dt).name}), {labs!r}))\n')
+                    ok = False
+                    break
+                if gd != want0 or cfd != feas:
+                    fail('CQM.violations', f'{np.dtype(dt).name} sample', f'violations of the {np.dtype(dt).name} row {row!r} = { {a: float(b) for a, b in gd.items()} !r} (feasible {cfd}), '
+                         f'definition { {a: float(b) for a, b in want0.items()} !r} (feasible {feas})',
+                         f'assert cqm.violations((np.array([{row!r}], dtype=np.{np.dtype(dt).name}), {labs!r})) == { {a: float(b) for a, b in want0.items()} !r}\n')
+                    ok = False
+                    break
+            if not ok:
+                break
         if bool(cf) != feas:
             hard_ok = all(per[l][3] for l in clabels if ref.cons[l].weight is None)
             soft_bad = any(not per[l][3] for l in clabels if ref.cons[l].weight is not None)
@@ -199,12 +244,19 @@ def check_one(ctx, r, out):
     if not ok:
         return
     # ---------------- vectorised path
-    arr = np.array(rows, dtype=float if any(isinstance(a, float) for row in rows for a in row) else int).reshape(nrows, len(labs))
+    if any(isinstance(a, float) for row in rows for a in row):
+        dt = float
+    else:
+        flat = [a for row in rows for a in row]
+        fits = [d for d in INT_DTYPES if all(np.iinfo(d).min <= a <= np.iinfo(d).max for a in flat)]
+        dt = r.choice(fits)   # also the smallest one NumPy / as_samples would pick
+        ctx.tick('matrix dtype ' + np.dtype(dt).name)
+    arr = np.array(rows, dtype=dt).reshape(nrows, len(labs))
     perm = list(range(len(labs)))
     if r.random() < .5:
         r.shuffle(perm)
     sl = (arr[:, perm], [labs[i] for i in perm])
-    slsrc = f'({arr[:, perm].tolist()!r}, {[labs[i] for i in perm]!r})' if labs else f'(np.empty(({nrows}, 0)), [])'
+    slsrc = f'(np.array({arr[:, perm].tolist()!r}, dtype=np.{np.dtype(dt).name}), {[labs[i] for i in perm]!r})' if labs else f'(np.empty(({nrows}, 0)), [])'
     try:
         ss = SampleSet.from_samples_cqm(sl, cqm, rtol=fr_, atol=fa)
         rec = ss.record
@@ -249,7 +301,7 @@ def check_one(ctx, r, out):
     dom = []
     for v in labs:
         vt, lo, hi = ref.vars[v]
-        dom.append(None if vt == 'REAL' else ([0, 1] if vt == 'BINARY' else [-1, 1] if vt == 'SPIN' else list(range(int(lo), int(hi) + 1))))
+        dom.append(None if vt == 'REAL' or hi - lo > 200 else ([0, 1] if vt == 'BINARY' else [-1, 1] if vt == 'SPIN' else list(range(int(lo), int(hi) + 1))))
     if labs and all(d is not None for d in dom) and np.prod([len(d) for d in dom]) <= 150 and r.random() < .5:
         try:
             es = dimod.ExactCQMSolver().sample_cqm(cqm, rtol=fr_, atol=fa)
